@@ -297,6 +297,17 @@ class MayRaise:
             if name in self._f.params:
                 return out | {self._mk(f"param:{name}", s, tag=self._guard_tag(s))}
             return out | {self._mk(name, s)}
+        if hasattr(ast, "Match") and isinstance(s, ast.Match):
+            out |= self._expr(s.subject)
+            for case in s.cases:
+                if case.guard is not None:
+                    out |= self._expr(case.guard)
+                out |= self._block(case.body, handler_exc)
+            return out
+        if isinstance(s, ast.With):
+            for it in s.items:
+                out |= self._expr(it.context_expr)
+            return out | self._block(s.body, handler_exc)
         if isinstance(s, ast.Assert):
             return self._expr(s.test) | {self._mk("AssertionError", s)}
         if isinstance(s, (ast.Assign, ast.AnnAssign, ast.AugAssign)):
